@@ -801,7 +801,7 @@ func c09SameKey(a, b ssa.Value) bool {
 	}
 	for _, r := range rb {
 		if !m[r] {
-			return false
+			return c09PureCallEq(a, b, 0)
 		}
 	}
 	return true
@@ -1012,6 +1012,26 @@ func c09R2Kill(c *Ctx, R2 string, f *ssa.Function, mem *types.Named, K ssa.Instr
 			adds = append(adds, in)
 		}
 	})
+	// the same operations performed by a helper of the package on tags[<digest argument>]
+	for _, call := range Calls(f, func(string) bool { return true }) {
+		g := StaticCallee(call)
+		if _, isCall := call.(*ssa.Call); !isCall || g == nil || g == f || fnPkgPath(g) != fnPkgPath(f) || len(g.Blocks) == 0 {
+			continue
+		}
+		args := call.Common().Args
+		for _, op := range []string{"del", "add"} {
+			di, ki, ok := c09HelperSetOp(g, mem, op)
+			if !ok || di >= len(args) || ki >= len(args) || !c09SameKey(args[ki], key) {
+				continue
+			}
+			if op == "del" && len(oldVals) > 0 && (old.fieldOf(args[di], "Digest") || old.vals[args[di]]) {
+				dels = append(dels, call.(ssa.Instruction))
+			}
+			if op == "add" && newVal != nil && (nw.fieldOf(args[di], "Digest") || nw.vals[args[di]]) {
+				adds = append(adds, call.(ssa.Instruction))
+			}
+		}
+	}
 	// (a) the stale inverse entry is removed
 	k1 := fmt.Sprintf("%s|%s:stale-inverse-removed", fname, what)
 	// delegation: a helper of the package that receives k and deletes index[k] (its own kill is checked
@@ -1063,6 +1083,96 @@ func c09R2Kill(c *Ctx, R2 string, f *ssa.Function, mem *types.Named, K ssa.Instr
 			c.Check(R2, k2, K.Pos(), !bad, ifelse(!bad, "every path through index[k] = v adds k to tags[v.Digest]", "a path through index[k] = v returns without adding k to tags[v.Digest]"))
 		}
 	}
+}
+
+// c09HelperSetOp: on every path, g removes (op "del") / inserts (op "add") its
+// parameter #ki from / into tags[d] where d is its parameter #di (a digest, or a
+// descriptor whose Digest is used).  For "del" a missing or nil set is excused.
+func c09HelperSetOp(g *ssa.Function, mem *types.Named, op string) (di, ki int, ok bool) {
+	digestParam := func(x ssa.Value) int {
+		if fn, i := c09ParamOf(x); fn == g {
+			return i
+		}
+		for i, prm := range g.Params {
+			if _, isStruct := prm.Type().Underlying().(*types.Struct); isStruct && c09DescObjOf(prm).fieldOf(x, "Digest") {
+				return i
+			}
+		}
+		return -1
+	}
+	sets := map[int]map[ssa.Value]bool{}
+	excused := map[int][]Edge{}
+	addTo := func(i int, v ssa.Value) {
+		if sets[i] == nil {
+			sets[i] = map[ssa.Value]bool{}
+		}
+		for a := range Aliases(v) {
+			sets[i][a] = true
+		}
+	}
+	AllInstrs(g, func(in ssa.Instruction) {
+		switch u := in.(type) {
+		case *ssa.Lookup:
+			if !c09IsLoadOfField(u.X, mem, "tags") {
+				return
+			}
+			i := digestParam(u.Index)
+			if i < 0 {
+				return
+			}
+			if u.CommaOk {
+				for _, r := range *u.Referrers() {
+					if e, ok := r.(*ssa.Extract); ok {
+						if e.Index == 0 {
+							addTo(i, e)
+						} else {
+							_, fe := BoolTests(g, Aliases(e))
+							excused[i] = append(excused[i], fe...)
+						}
+					}
+				}
+			} else {
+				addTo(i, u)
+			}
+		case *ssa.MapUpdate:
+			if op == "add" && c09IsLoadOfField(u.Map, mem, "tags") {
+				if i := digestParam(u.Key); i >= 0 {
+					for _, r := range Roots(u.Value) {
+						addTo(i, r)
+					}
+				}
+			}
+		}
+	})
+	for i, set := range sets {
+		ne, _, _ := NilTests(g, set)
+		byKey := map[int][]ssa.Instruction{}
+		AllInstrs(g, func(in ssa.Instruction) {
+			o, sv, elem := c09SetOp(in)
+			if o != op || !c09RootsIn(sv, set) {
+				return
+			}
+			if fn, k := c09ParamOf(elem); fn == g {
+				byKey[k] = append(byKey[k], in)
+			}
+		})
+		for k, ins := range byKey {
+			ct := newCut().Instr(ins...)
+			if op == "del" {
+				ct.Edges(excused[i]...).Edges(ne...)
+			}
+			all := true
+			for _, r := range Returns(g) {
+				if ReachableFromEntry(r) && !MustPass(r, ct) {
+					all = false
+				}
+			}
+			if all {
+				return i, k, true
+			}
+		}
+	}
+	return -1, -1, false
 }
 
 // c09DeletesIndexOfParam: every path through g deletes index[p] or finds it absent.
